@@ -257,7 +257,7 @@ pub fn predict(tree: &Tree, inv: &Inv, fired: &Fired, oracle: &mut Oracle) -> Pr
                 p.files = tree.keys().map(|k| (k.clone(), FileExpect::Unchanged)).collect();
             }
         }
-        Shape::FormatAll { check, dir } => {
+        Shape::FormatAll { check, dir, .. } => {
             let dir_key = match dir {
                 None => resolve(&inv.cwd, "."),
                 Some(d) => resolve(&inv.cwd, d),
@@ -431,8 +431,12 @@ pub fn check(
             }
         }
     }
-    // ---- no new path remains
+    // ---- no new path remains (not under a crash / failed std stream: an implementation that
+    // writes through a temporary file cannot avoid leaving it behind when it is killed)
     for key in after.keys() {
+        if pred.level == Level::Safety {
+            break;
+        }
         if !before.contains_key(key) {
             v.push(viol(tree_props, if check_mode { "I14.1-tree" } else { "I15.2-untouched" }, step, format!("new path {:?} exists after the invocation", key)));
         }
@@ -478,6 +482,9 @@ pub fn check(
         let io_error = pred.any_unreadable || unrecovered_write_failure;
         match &inv.shape {
             Shape::Files { mode: Mode::InplaceCheck, .. } => {}
+            // `-i ... format-all --check`: whether the option parser rejects the combination
+            // (usage error, exit 2, nothing processed) or runs it as a check is its business
+            Shape::FormatAll { check: true, inplace: true, .. } if out.exit == Some(2) => {}
             _ if check_mode => {
                 let want: Option<i32> = if pred.any_unformatted || io_error || pred.walk_fault_visible {
                     Some(1)
